@@ -140,6 +140,15 @@ def fields_part(spec, part):
                             part.count("stateful_decode_compared")
                     except ValueError:
                         ve += 1
+                        if tname != "Timestamp" and field in (0, 1) and base in BASES[size]:
+                            # a decodable base pattern whose start / end time was replaced by another time inside the documented ranges
+                            h_, m_ = b[2 * field], b[2 * field + 1]
+                            extra = (255,) if size == 12 else ()
+                            if (h_ <= 23 or h_ == 48 or h_ in extra) and (m_ <= 59 or m_ in extra):
+                                part.violate("C11/decode/in-range-schedule-field-refused",
+                                             f"{tname}.read_value({bytes(b).hex()}) raised ValueError although the only field changed in a decodable group "
+                                             f"is a time inside its documented range ({h_}:{m_})",
+                                             {"field": True, "range": True, "type": tname, "bytes": bytes(b).hex()})
                         if fresh == "ValueError":
                             part.count("stateful_decode_compared")
                         if ve % 7 == 1:
